@@ -543,6 +543,16 @@ pub fn run(_params: &Params) {
             moves.push("kb_prefix_value");
           }
         }
+        10 if ctx::choose(2) == 0 => {
+          // a holder whose clock library counts milliseconds: iat is a thousand times too large (the year ~55 000)
+          let mut c = serde_json::to_value(&kb_claims).unwrap();
+          c["iat"] = Value::from(iat * 1000);
+          if let Ok(k) = sign_raw(holder, kb_frag, c.to_string().as_bytes(), &kb_opts) {
+            kb = k;
+            ctx::stat("fault.holder.kb_iat_in_milliseconds");
+            moves.push("kb_iat_in_milliseconds");
+          }
+        }
         10 | 11 if foreign_refs[hi].is_some() => {
           // a Byzantine holder signs with its general-purpose #alt key but names the foreign method its document
           // merely refers to: that id is not key material of the holder document
@@ -979,6 +989,22 @@ pub fn run(_params: &Params) {
                   validator.validate_credential::<_, Object>(&sd, &adv_doc, &JwtCredentialValidationOptions::default(), FailFast::FirstError)
                 });
                 let situation = if conceal_iss { "iss-concealed-and-disclosed" } else { "iss-in-the-clear" };
+                // the same forgery against a LIST of trusted issuers that contains both the signer and the issuer it
+                // names: the signer's document is found by the kid, the named issuer is still not the signer
+                if let Some((_v, Ok(issuer_doc2))) = ledger.resolve(&issuer.did, 0) {
+                  let docs = if ctx::choose(2) == 0 { vec![issuer_doc2, adv_doc.clone()] } else { vec![adv_doc.clone(), issuer_doc2] };
+                  ctx::stat("probe.sd_jwt_verify_signature_multi_issuer");
+                  match ctx::catch(|| validator.verify_signature::<_, Object>(&sd, &docs, &identity_document::verifiable::JwsVerificationOptions::default())) {
+                    Err(p) => ctx::violation("C16", "C16.error_never_crash", format!("verify_signature/panic/forged-issuer/{situation}"), format!("panicked: {p}")),
+                    Ok(Ok(_)) => ctx::violation(
+                      "C16",
+                      "C16.credential_accept_only_if_bound",
+                      format!("verify_signature-accepted-despite/issuer-is-not-the-signer/{situation}"),
+                      format!("verify_signature over the documents of {} and {} accepted an SD-JWT signed by the former that names the latter as issuer", adv.did, issuer.did),
+                    ),
+                    Ok(Err(_)) => {}
+                  }
+                }
                 match res {
                   Err(p) => ctx::violation("C16", "C16.error_never_crash", format!("validate_credential/panic/forged-issuer/{situation}"), format!("panicked: {p}")),
                   Ok(Ok(_)) => ctx::violation(
